@@ -376,8 +376,11 @@ class Interp(ExprMixin):
         neg = False
         while f[0] == "not":
             f, neg = f[1], not neg
-        if f[0] == "probe" and f[1] in ("isfile", "exists", "is_file") and (pol == neg):
-            return st.set(tmps=st.tmps - f[2], pending=st.pending - f[2])
+        if f[0] == "probe" and f[1] in ("isfile", "exists", "is_file"):
+            if pol == neg:
+                return st.set(tmps=st.tmps - f[2], pending=st.pending - f[2])
+            # tested present: whatever happened to it before, it is there now
+            return st.set(gone=st.gone - f[2])
         return st
 
     def refine(self, test, pol, st):
